@@ -5,7 +5,10 @@
 EXTENDS XyzText, Json
 CONSTANTS Shift          \* seed-derived rotation of the coordinate lists
 
-Els == <<"H", "C", "Og", "dummy">>
+(* element + atom type class; three kinds of dummies: no element, and dummy TYPE on a real element (Br, H) *)
+Els == << [el |-> "H", ty |-> "regular"], [el |-> "Br", ty |-> "dummy"], [el |-> "Og", ty |-> "regular"],
+          [el |-> "dummy", ty |-> "dummy"], [el |-> "C", ty |-> "regular"], [el |-> "H", ty |-> "dummy"] >>
+ElAt(eo, i) == Els[((eo + i - 1) % Len(Els)) + 1]
 (* [u, s]: zero, +-1 micro-A with a seventh digit, 123.456789 A, 1.5 A, large, negative, 2000 A *)
 CoordsM == << [u |-> 0, s |-> 0], [u |-> 1, s |-> 3], [u |-> -1, s |-> -4], [u |-> 123456789, s |-> 2],
               [u |-> -1500000, s |-> 0], [u |-> 1000000, s |-> -3], [u |-> -2, s |-> 4], [u |-> 2000000001, s |-> -1],
@@ -16,7 +19,7 @@ CoordsF == << 0, 1, -1, 15, -23, 120, 199, -7, 42, -200, 3 >>
 CoordsG == << 0, 10999, -4567, 1, 2500, -1, 333, -10000, 8, 1234, -9 >>
 
 Pick(L, i) == L[((i + Shift) % Len(L)) + 1]
-MkFrame(L, n, eo, co) == [i \in 1..n |-> [el |-> Els[((eo + i - 1) % Len(Els)) + 1],
+MkFrame(L, n, eo, co) == [i \in 1..n |-> [el |-> ElAt(eo, i).el, ty |-> ElAt(eo, i).ty,
                                           x |-> Pick(L, co + 3 * (i - 1)), y |-> Pick(L, co + 3 * (i - 1) + 1),
                                           z |-> Pick(L, co + 3 * (i - 1) + 2)]]
 Geoms(ns, eos, cos) == {[cls |-> c, frames |-> <<MkFrame(CoordsM, n, eo, co)>>] :
@@ -47,6 +50,7 @@ DevEnsUnits == {"EnsembleLoadsIgnoresUnits"}
 DevEmpty    == {"EmptyFrameUnreadable"}
 DevFrames   == {"FrameBoundaryLost"}
 DevColumns  == {"ColumnsSwapped"}
+DevDummy    == {"DummyTypeHidesElement"}
 
 ASSUME PoolOK
 
